@@ -899,6 +899,7 @@ func rdOf(b *bufio.Reader) io.Reader         { return b }
 //@   ensures  [errnil]   err != nil ==> br == nil
 //@   ensures  [proto]    err == nil && hs.Protocol != "" ==> exists(0, len(d.Protocols), func(i int) bool { return eqvStr(hs.Protocol, d.Protocols[i]) })
 //@   loop 1 invariant [ok]   err == nil && br == ufReaderOf(io.Reader(conn)) && br != nil && headerSeen <= 7
+//@   loop 1 invariant [status] resp.status == 101 && resp.major == 1 && resp.minor >= 1
 //@   loop 1 invariant [errs] forall(old(linePos(ufReaderOf(io.Reader(conn)))), linePos(br), func(i int) bool { return ufLineErr(br, i) == nil }) && linePos(br) >= old(linePos(ufReaderOf(io.Reader(conn))))
 //@   loop 1 invariant [proto] hs.Protocol == "" || exists(0, len(d.Protocols), func(i int) bool { return eqvStr(hs.Protocol, d.Protocols[i]) })
 //@   loop 2 invariant [ok]   err == nil && br == ufReaderOf(io.Reader(conn)) && br != nil && headerSeen <= 7
@@ -970,6 +971,7 @@ func ufWriterOf(w io.Writer) *bufio.Writer { return nil }
 //@   ensures  [rejcode] outCalls(wrOf(ufWriterOf(io.Writer(conn)))) == old(outCalls(wrOf(ufWriterOf(io.Writer(conn)))))+1 && outByte(wrOf(ufWriterOf(io.Writer(conn))), old(outLen(wrOf(ufWriterOf(io.Writer(conn)))))) == 2 && dynTypeIs(err, "*ws.ConnectionRejectedError") && err.(*ConnectionRejectedError).code != 0 ==> outByte(wrOf(ufWriterOf(io.Writer(conn))), old(outLen(wrOf(ufWriterOf(io.Writer(conn)))))+1) == byte(err.(*ConnectionRejectedError).code>>8) && outByte(wrOf(ufWriterOf(io.Writer(conn))), old(outLen(wrOf(ufWriterOf(io.Writer(conn)))))+2) == byte(err.(*ConnectionRejectedError).code)
 //@   ensures  [plain500] outCalls(wrOf(ufWriterOf(io.Writer(conn)))) == old(outCalls(wrOf(ufWriterOf(io.Writer(conn)))))+1 && outByte(wrOf(ufWriterOf(io.Writer(conn))), old(outLen(wrOf(ufWriterOf(io.Writer(conn)))))) == 2 && !dynTypeIs(err, "*ws.ConnectionRejectedError") ==> outByte(wrOf(ufWriterOf(io.Writer(conn))), old(outLen(wrOf(ufWriterOf(io.Writer(conn)))))+1) == 0x01 && outByte(wrOf(ufWriterOf(io.Writer(conn))), old(outLen(wrOf(ufWriterOf(io.Writer(conn)))))+2) == 0xf4
 //@   ensures  [errresp] err != nil && outCalls(wrOf(ufWriterOf(io.Writer(conn)))) == old(outCalls(wrOf(ufWriterOf(io.Writer(conn)))))+1 ==> outByte(wrOf(ufWriterOf(io.Writer(conn))), old(outLen(wrOf(ufWriterOf(io.Writer(conn)))))) == 2 || outByte(wrOf(ufWriterOf(io.Writer(conn))), old(outLen(wrOf(ufWriterOf(io.Writer(conn)))))) == 1
+//@   loop 1 invariant [req] err == nil ==> req.major == 1 && req.minor >= 1
 //@   loop 1 invariant [rd] forall(old(linePos(ufReaderOf(io.Reader(conn)))), linePos(br), func(i int) bool { return ufLineErr(br, i) == nil }) && linePos(br) >= old(linePos(ufReaderOf(io.Reader(conn)))) && br == ufReaderOf(io.Reader(conn)) && br != nil && bw == ufWriterOf(io.Writer(conn)) && bw != nil
 //@   loop 1 invariant [wr] outCalls(wrOf(bw)) == old(outCalls(wrOf(ufWriterOf(io.Writer(conn))))) && outLen(wrOf(bw)) == old(outLen(wrOf(ufWriterOf(io.Writer(conn))))) && headerSeen <= 31 && len(nonce) == 24
 
